@@ -99,6 +99,21 @@ class QuantMixin:
             for f in list(self.q_facts.get(k, [])):
                 self._inst(f, t)
 
+    def elem_generic(self, s, t):
+        """element read at a GENERIC index (used while summarising a comprehension / predicate once): only
+        hypotheses (`all` / `any` facts, element typing) are instantiated at it, never other summaries, and
+        the index is not remembered as a term of interest"""
+        v = self.nth(s, t)
+        self.bound_ref(v)
+        et = self.seq_elem_type.get(smt.simp(s).get_id())
+        if et is not None:
+            self._add_axiom(z3.Implies(z3.And(t >= 0, t < z3.Length(s)), self.type_formula(v, et)))
+        for k in self._closure(self._seq_key(s)):
+            for f in list(self.q_facts.get(k, [])):
+                if f.name in ('all', 'any'):
+                    self._inst(f, smt.simp(t))
+        return v
+
     def _inst(self, f: QFact, t) -> None:
         if t.get_id() in f.done:
             return
@@ -192,7 +207,9 @@ class QuantMixin:
                     pass
                     sub = Frame(fr.func, fr.module, parent=fr, cls=fr.cls)
                     sub.is_spec = fr.is_spec
-                    self.assign(gen.target, smt.simp(Val.int(i)) if rng is not None else self.elem(S, i), sub)
+                    gen_run = z3.is_const(i) and i.decl().name().startswith('i*')
+                    self.assign(gen.target, smt.simp(Val.int(i)) if rng is not None else
+                                (self.elem_generic(S, i) if gen_run else self.elem(S, i)), sub)
                     for c in gen.ifs:
                         if not self.branch(self.truthy(self.ev(c, sub))):
                             return z3.BoolVal(is_all)
@@ -325,51 +342,128 @@ class QuantMixin:
         pure = self.try_pure_map(e, fr, kind, S)
         if pure is not None:
             return pure
-        if self.choose([z3.BoolVal(True), n > 0]) == 1:
+        return self.skolem_map(e, fr, kind, S)
+
+    def new_symbols(self, terms, cnt0: int):
+        """uninterpreted constants created after counter value cnt0 that occur in the terms"""
+        out = {}
+        seen = set()
+        todo = list(terms)
+        while todo:
+            x = todo.pop()
+            if x.get_id() in seen:
+                continue
+            seen.add(x.get_id())
+            if z3.is_const(x) and x.decl().kind() == z3.Z3_OP_UNINTERPRETED:
+                nm = x.decl().name()
+                if '!' in nm:
+                    tail = nm.rsplit('!', 1)[1]
+                    if tail.isdigit() and int(tail) > cnt0 and not nm.startswith('g!'):
+                        out[nm] = x
+                continue
+            if z3.is_app(x):
+                todo.extend(x.children())
+        return out
+
+    def mentions_fresh_ref(self, terms, ref0: int) -> bool:
+        seen = set()
+        todo = list(terms)
+        while todo:
+            x = todo.pop()
+            if x.get_id() in seen:
+                continue
+            seen.add(x.get_id())
+            if z3.is_app(x) and x.decl().name() == 'ref' and x.num_args() == 1 and z3.is_int_value(x.arg(0)):
+                if x.arg(0).as_long() >= ref0 and x.arg(0).as_long() >= smt.FRESH_BASE:
+                    return True
+                continue
+            if z3.is_app(x):
+                todo.extend(x.children())
+        return False
+
+    def skolem_map(self, e, fr, kind: str, S):
+        """[E(x) for x in S], general case: E is evaluated ONCE on the generic element S[i*] (contracts of
+        callees applied, scratch ghost trace when effectful).  Every symbol the run creates becomes a Skolem
+        function of the index, so the facts about element i* generalise to any index by substitution:
+            normal completion:  |R| = |S|,  forall i. not raises(i) and  R[i] is one of the returning values
+            raising:            a witness index j with raises(j); the exception is the run's exception at j
+        Elements that allocate objects themselves (inlined constructors) are outside this summary."""
+        n = z3.Length(S)
+        effectful = (not fr.is_spec) and any(isinstance(x, (ast.Call, ast.Await)) for x in ast.walk(e.elt))
+        istar = self.fresh('istar', smt.I)
+        c0, r0 = self.fresh_counter, self.next_ref
+        base = len(self.pc)
+        inr = z3.And(istar >= 0, istar < n)
+        saved_ghost = dict(self.st.ghost)
+        if effectful:
+            self.scratch_ghost()
+        c0 = self.fresh_counter
+
+        def thunk():
+            self.assume(inr)
+            return self.eval_elt(e, fr, self.elem_generic(S, istar))
+        try:
+            rs = self.sub_explore(thunk)
+        finally:
+            self.st.ghost = saved_ghost
+        new_axioms = [c for c, ax in zip(self.pc[base:], self.pc_axiom[base:]) if ax]
+        rets = [(g, v) for g, k, v, _ in rs if k == 'ret']
+        raises = [(g, v) for g, k, v, _ in rs if k == 'raise']
+        terms = [t for g, v in rets + raises for t in (g, v)] + new_axioms
+        if self.mentions_fresh_ref([v for _, v in rets], r0):
+            self.unsupported('comprehension element allocates its own result object (no summary)', e)
+        syms = self.new_symbols(terms, c0)
+        subst0 = []
+        for nm, c in syms.items():
+            f = z3.Function(f'sk_{nm}', smt.I, c.sort())
+            subst0.append((c, f(istar)))
+
+        def at(term, t):
+            x = z3.substitute(term, *subst0) if subst0 else term
+            return smt.simp(z3.substitute(x, (istar, t)))
+
+        raise_guard = z3.Or(*[g for g, _ in raises]) if raises else z3.BoolVal(False)
+        options = [z3.BoolVal(True)] + ([n > 0] if raises else [])
+        which = self.choose(options) if len(options) > 1 else 0
+        if which == 1:
             j = self.fresh('j', smt.I)
             self.assume(z3.And(j >= 0, j < n))
-            x = self.elem(S, j)
-            self.eval_elt(e, fr, x)          # raises PyRaise on the raising sub-paths
-            raise Infeasible()               # this outcome exists only if the element raises
+            self.note_index(S, j)
+            for c in new_axioms:
+                self._add_axiom(at(c, j))
+            k = self.choose([at(g, j) for g, _ in raises])
+            exc = at(raises[k][1], j)
+            c = self.class_of(raises[k][1])
+            if c is not None:
+                self.set_class(exc, c, exact=smt.simp(raises[k][1]).get_id() in self.known_cls)
+            raise PyRaise(exc, 'element of a comprehension')
         R = self.fresh('R', smt.SeqV)
         self._add_axiom(z3.Length(R) == n)
         out = self.alloc(builtin_class('list' if kind == 'list' else 'tuple'))
         self.set_seq(out, R)
-        snap_frame = fr
-
-        effectful = (not fr.is_spec) and any(isinstance(x, (ast.Call, ast.Await)) for x in ast.walk(e.elt))
+        ret_cls = [self.class_of(v) for _, v in rets]
 
         def inst(t):
             in_range = z3.And(t >= 0, t < n)
             if z3.is_false(smt.simp(in_range)):
                 return
-            saved_ghost = dict(self.st.ghost)
-            if effectful:
-                # the element runs in an unknown intermediate ghost state: facts about its own result are
-                # kept, facts about the global trace are confined to a scratch copy
-                self.scratch_ghost()
-            try:
-                def thunk():
-                    self.assume(in_range)
-                    return self.eval_elt(e, snap_frame, smt.simp(S[t]))
-                rs = self.sub_explore(thunk)
-            finally:
-                self.st.ghost = saved_ghost
-            rets = [r for r in rs if r[1] == 'ret']
-            if not rets:
+            for c in new_axioms:
+                self._add_axiom(z3.Implies(in_range, at(c, t)))
+            rv = smt.elem_at(R, t)
+            self._add_axiom(z3.Implies(in_range, rv == R[t]))
+            if raises:
+                self.assume(z3.Implies(in_range, z3.Not(at(raise_guard, t))))
+            if rets:
+                self.assume(z3.Implies(in_range, z3.Or(*[z3.And(at(g, t), rv == at(v, t)) for g, v in rets])))
+                cs = set(c for c in ret_cls if c is not None)
+                if len(cs) == 1 and None not in ret_cls:
+                    self.hint_cls.setdefault(smt.simp(rv).get_id(), next(iter(cs)))
+            else:
                 self._add_axiom(z3.Not(in_range))
-                return
-            # the comprehension completed, so element t did not raise: its value is one of the returning
-            # sub-paths' values
-            self.assume(z3.Implies(in_range, z3.Or(*[z3.And(g, R[t] == v) for g, _, v, _ in rets])))
-            for g, _, v, _ in rets:
-                self.bound_ref(v)
-            if len(rets) == 1:
-                self.adopt_fresh_effects(rets[0][3])
         self.link_seqs(S, R)
         self.add_qfact(S, 'map', inst)
         if effectful:
-            self.havoc_ghost('trace')         # the elements may have appended events
+            self.havoc_ghost('trace')
         return out
 
     def scratch_ghost(self) -> None:
@@ -394,7 +488,7 @@ class QuantMixin:
 
         def thunk():
             self.assume(inr)
-            return self.eval_elt(e, fr, self.elem(S, istar))
+            return self.eval_elt(e, fr, self.elem_generic(S, istar))
         try:
             rs = self.sub_explore(thunk)
         except Unsupported:
